@@ -411,10 +411,19 @@ def _cli_cases(seed, tier):
     from safeds_stubgen.docstring_parsing import DocstringStyle
     tmp = tempfile.mkdtemp(prefix="pyvc_cli_")
     typed = WRITE_TYPED_PACKAGE(tmp, TYPE_GRAMMAR(1 if tier == "quick" else 2))
+    # a source directory that is not the package itself but holds exactly one package (get_api descends into it)
+    wrap = os.path.join(tmp, "srcwrap")
+    os.makedirs(os.path.join(wrap, "innerpkg"))
+    with open(os.path.join(wrap, "innerpkg", "__init__.py"), "w") as f:
+        f.write("")
+    with open(os.path.join(wrap, "innerpkg", "inner_mod.py"), "w") as f:
+        f.write("class InnerCls:\n    def method(self, a: int) -> str: ...\n\n\ndef inner_function(b: InnerCls) -> InnerCls: ...\n")
     combos = [(typed, "PLAINTEXT", False, False, "CODE", "WARN"),
+              (wrap, "PLAINTEXT", False, False, "CODE", "IGNORE"),
               ("/verif/fixtures/pkgs/kwpkg", "NUMPYDOC", False, True, "CODE", "IGNORE"),
               ("/verif/fixtures/pkgs/kwpkg", "PLAINTEXT", True, False, "DOCSTRING", "WARN"),
               ("/verif/fixtures/pkgs/tdpkg", "GOOGLE", False, True, "DOCSTRING", "IGNORE"),
+              ("/verif/fixtures/pkgs/advpkg", "NUMPYDOC", False, False, "DOCSTRING", "IGNORE"),
               ("/repo/tests/data/various_modules_package", "PLAINTEXT", True, True, "CODE", "IGNORE")]
     if tier != "quick":
         for style, tr, nc, pref, warn in itertools.product(["PLAINTEXT", "GOOGLE", "NUMPYDOC", "REST"], [False, True], [False, True],
